@@ -385,6 +385,24 @@ def _run_case(i, rng, rec, tier, state):
             expect_invalid(rec, label + ":point-on-edge(exact)", lambda: make3(W), dict(info, vertices=W))
         if use_sphero:
             expect_invalid(rec, "ConvexSpheropolyhedron:negative-radius", lambda: cs.ConvexSpheropolyhedron(P, -abs(rng.uniform(0.01, 2))), info)
+        # vertex sets that span no solid at all: exactly coplanar, exactly collinear, fewer than four points, a non-finite coordinate
+        kind = ["coplanar", "collinear", "three-points", "infinite-coordinate", "nan-coordinate"][int(rng.integers(5))]
+        if kind == "coplanar":
+            f = max(h.facets, key=len)
+            W = P[list(f)] if len(f) >= 4 else np.vstack((P[list(f)], P[list(f)].mean(0) + (P[f[0]] - P[f[1]])))
+            n0 = h.normals[h.facets.index(f)]
+            W = W - np.outer((W - W[0]) @ n0, n0) if not c.get("exact") else W
+            if c.get("exact") and np.all(P == np.round(P)):
+                W = np.column_stack((P[:, 0], P[:, 1], np.zeros(len(P))))
+                W = np.unique(W, axis=0)
+        elif kind == "collinear":
+            W = P[0] + np.outer(np.arange(5.0), P[1] - P[0])
+        elif kind == "three-points":
+            W = P[:3]
+        else:
+            W = P.copy()
+            W[int(rng.integers(len(W))), int(rng.integers(3))] = np.inf if kind == "infinite-coordinate" else np.nan
+        expect_invalid(rec, label + ":spans-no-solid:" + kind, lambda: make3(W), dict(info, vertices=W))
         return
     if mode == 4:       # curved shapes
         which = ["Circle", "Ellipse", "Sphere", "Ellipsoid"][(i // 6) % 4]
